@@ -1511,6 +1511,23 @@ def _mentions(t, c):
     return False
 
 
+def _resolve_fresh_array(st1, sid, resolved):
+    """an array allocated by the discovery run of the body whose content / shape mentions a derived induction variable with a
+    closed form (`resolved`: havoc constant -> closed form in the loop index, e.g. the read position of a file handle that
+    advances by a loop-invariant amount): the closed form is substituted, as for written texts.  The resulting summary is a
+    candidate like every other one: the loop-init / loop-step obligations compare it with the real body's effect."""
+    if not resolved:
+        return
+    c = st1.heap.get(sid)
+    if c is None or c.kind != "arr":
+        return
+    pairs = list(resolved)
+    fn = c.data
+    meta = dict(c.meta)
+    meta["shape"] = tuple(_subst_val(d, pairs) for d in meta["shape"])
+    st1.heap[sid] = Content("arr", A._memo(lambda idx, fn=fn: _subst_val(fn(idx), pairs)), meta)
+
+
 def _summarise_cell(interp, sid, pre_cell, heap_h, st1, iz, lo, hi, hv_consts, hv_funcs, guarded=False, resolved=()):
     """non-array heap cells touched by the body: python lists (append), dataframes (column updates), objects"""
     post_cell = st1.heap[sid]
@@ -1525,6 +1542,7 @@ def _summarise_cell(interp, sid, pre_cell, heap_h, st1, iz, lo, hi, hv_consts, h
                 # index set to lo + p (its content must not depend on loop-carried state; checked by the step obligation,
                 # which compares the appended array element-wise with the claimed one)
                 v0 = added[0]
+                _resolve_fresh_array(st1, v0.sid, resolved)
                 cell = st1.heap[v0.sid]
                 probe_idx = tuple(sv.fresh_int("q") for _ in cell.meta["shape"])
                 if any(_contains_any(t, hv_consts, hv_funcs) for t in _terms_of(cell.data(probe_idx))):
